@@ -26,6 +26,7 @@ func init() {
 			"O4 also: every loop over the node's disabling conditions enumerates the references inside each entry (FindRefs), so a condition wrapped by a mapped call still yields its prenode. " +
 			"O2b if a scan of Fork.chunks in the state function starts at a position remembered in a field, every function replacing Fork.chunks clears that field. " +
 			"O7 a function comparing the OutputId of two references also compares their Id. " +
+			"O8 in the disable-collection classifiers every boolean verdict is false after an iteration that took the *RefExp arm. " +
 			"NOT decided: that FindRefs returns every reference, metadata state derivation from real files, job manager scheduling.",
 		Assumptions: commonAssumptions,
 	}
@@ -40,6 +41,7 @@ func runC02(c *an.Ctx) {
 	ruleO6(c)
 	ruleO2b(c)
 	ruleO7(c)
+	ruleO8(c)
 }
 
 // ---------------------------------------------------------------------------
